@@ -30,7 +30,7 @@ Definition codes (lo hi : Z) : list Z := zrange lo (Z.to_nat (hi - lo + 1)).
 (* CMD lrelu_table = 13 : zp_in zp_out id_scale id_shift alpha_scalar alpha_scale alpha_shift qmin qmax *)
 (* CMD hswish_table = 14 : zp_in zp_out out_scale out_shift relu_scale relu_shift qmin qmax *)
 (* CMD requant = 15 : zp_in zp_out mult shift qmin qmax v1 .. vn *)
-(* CMD shl16np = 16 : a offset   (NumPy-2 model of shift_left16 on an np.int16 operand; reference as shl16) *)
+(* CMD shl16np = 16 : a offset   (model of shift_left16 on an np.int16 operand, code as it is now; reference as shl16) *)
 Definition run (cmd : Z) (a : list Z) : list Z :=
   match cmd, a with
   | 1, [x; y] => tri (GenFpMath.saturating_rounding_mul32 x y) (SRDHM32 x y)
